@@ -189,10 +189,10 @@ O("C15.rescale.roundtrip", "C15", "h_C15.c", "h_C15_rescale_roundtrip",
 
 # ------------------------------------------------------------------ C20
 P("C20", level="other",
-  level_text="Proof obligations (all inputs): the comparator used by both sorts is a strict weak (indeed total) order on all 2^64 bit patterns and agrees with chronological order incl. all-day-first (C08.order), and the binary searches of the sort stay in range and terminate (loop contracts). The sentence of the property itself - sorted, permutation, stable - relates moving array slots to each other, which CBMC contracts without quantifiers cannot carry, so it is reached only by bounded end-to-end runs of the real echs_instant_sort / echs_event_sort on symbolic keys (lengths stated per run), reported as bounded stand-ins.",
-  level_note="Trusted: CBMC semantics. Bounded: array length (6 quick / 10 thorough on the insertion-sort branch; 33..34 thorough on the first merge level with a small key domain). Not covered: the in-place block-merge path (n >= 1024, uses sqrt()).",
+  level_text="Proof obligations (all inputs): the comparator used by both sorts is a strict weak (indeed total) order on all 2^64 bit patterns and agrees with chronological order incl. all-day-first (C08.order), and the binary searches of the sort stay in range and terminate (loop contracts). The sentence of the property itself - sorted, permutation, stable - relates moving array slots to each other, which CBMC contracts without quantifiers cannot carry, so it is reached only by bounded end-to-end runs of the real echs_instant_sort / echs_event_sort on symbolic keys (lengths stated per run), reported as bounded stand-ins; the three merge routines of the block-merge path (MergeExternal, MergeInternal; MergeInPlace in the thorough tier) are likewise run one call each on two adjacent sorted ranges of symbolic events and checked for ordered / whole-element permutation / stability / frame.",
+  level_note="Trusted: CBMC semantics; memcpy/memmove modelled element-wise in the merge runs. Bounded: array length 3 and 5 (8 thorough) for the whole sort; ranges of 0..3 (0..2 for MergeInPlace) elements for the merge routines. Not covered: WikiSort's own block bookkeeping for n >= 1024 (pull ranges, block tagging, sqrt()).",
   explanation="comparator axioms and binary-search safety are proved for all inputs; sortedness/permutation/stability only up to the stated array lengths (bounded stand-in)",
-  not_covered=["in-place block merge path of WikiSort (n >= 1024) and sqrt()", "sortedness/permutation/stability beyond the stated lengths"])
+  not_covered=["WikiSort's block bookkeeping for n >= 1024 (pull ranges, block tagging, sqrt()): seed C20-m1", "sortedness/permutation/stability beyond the stated lengths"])
 O("C20.lt.axioms", "C20", "h_C20.c", "h_C20_lt_axioms",
   "echs_instant_lt_p is irreflexive, asymmetric, transitive with transitive incomparability on all 2^64 bit patterns (sentinels and their wrap-around included)",
   ["echs_instant_lt_p", "echs_instant_le_p"], solver=["minisat", "kissat"])
@@ -274,9 +274,9 @@ O("C10.esccpy", "C10", "h_C10.c", "h_C10_esccpy",
 
 # ------------------------------------------------------------------ C12
 P("C12", level="proof",
-  level_text="Contracts of the three callbacks that implement the limit, on the real echsd.c with system/libev calls replaced by recording stubs: for every N in 1..62 and unset, every running count and spawn outcome, task_cb starts and counts the occurrence below the limit and reports it as not run at the limit, keeps the invariant running <= N; chld_cb uncounts; a refusal of one task leaves the start of another untouched (two-call harness over the static argv). All loop-free: complete proofs. The invariant over whole histories follows by induction over these per-callback contracts (prose).",
-  level_note="Trusted: CBMC semantics; recorder stubs for pipe/posix_spawn*/openat/lseek/close/ev_*; vtodoify's body dropped (writes the request text only). Not covered: that echsx honours --no-run, real process lifetimes, a child of a freed task (chld_cb on a recycled task object).",
-  not_covered=["echsx honouring the no-run flag", "chld_cb for a child whose task object was freed and recycled", "interleavings as such (libev)"])
+  level_text="Contracts on the real code, system/libev calls replaced by recording stubs: (1) echsd.c - for every N in 1..62 and unset, every running count and spawn outcome, task_cb starts and counts the occurrence below the limit and reports it as not run (--no-run request) at the limit, keeps running <= N; chld_cb uncounts; a refusal of one task leaves the start of another untouched (two-call harness over the static argv); all loop-free, complete. (2) echsx.c - echsx() never starts the job when --no-run is given (C14.echsx). (3) evical.c - the limit's text form: X-ECHS-MAX-SIMUL:N is held as N and written back as N for N = 0..62 over any calendar default, absent/unusable = unlimited (C12.max_simul.text). The invariant over whole histories follows by induction over these per-callback contracts (prose).",
+  level_note="Trusted: CBMC semantics; recorder stubs for pipe/posix_spawn*/openat/lseek/close/ev_*, strtol, the fd printer; vtodoify's body dropped in the echsd obligations (writes the request text only); prep/run/mail/jlog/free_task of echsx by recording contracts. Not covered: real process lifetimes, a child of a freed task (chld_cb on a recycled task object).",
+  not_covered=["chld_cb for a child whose task object was freed and recycled", "interleavings as such (libev)", "the NOT RUN report text of echsx"])
 E12 = dict(gi_steps=[["--remove-function-body", "vtodoify"], ["--generate-function-body", "vtodoify", "--generate-function-body-options", "nondet-return"]],
            solver=["minisat", "kissat"], timeout={"quick": 600, "thorough": 1800}, **ECHSD_NATIVE)
 O("C12.task_cb", ["C12", "C04"], "h_C12.c", "h_C12_task_cb",
@@ -358,10 +358,10 @@ O("C07.utc_local", "C07", "h_C07.c", "h_C07_utc_local",
 
 # ------------------------------------------------------------------ C14
 P("C14", level="other",
-  level_text="Killing a job is alarm()+SIGXCPU in the kernel and out of a contract's reach. Decidable with contracts, and discharged on the real code: the NUMBER that travels from the user file to the executor - DTEND/DTSTART difference == elapsed time for any span (C08.diff), every ISO spelling of a DURATION reads as its value incl. weeks/days and signs (C18.idiff.strp.*), the daemon writes the limit as PT<n>S with n = limit rounded up to seconds, a form the executor's parser accepts (C14.vtodoify + C18.idiff.strp.uS). The executor's ms->s hop and the DUE comparison are inside the 600-line echsx() and were only demonstrated natively.",
-  level_note="Trusted: libc %d (the recorder captures format and argument), ghost recorder replacing fdprnt.h in C14.vtodoify. Not covered: echsx's hop from the parsed duration to alarm() (fixed, natively demonstrated: DURATION:PT2S killed after 2.0 s), DUE handling, the kill itself, scheduling jitter.",
-  explanation="numeric chain of the limit is covered by discharged contracts hop by hop except inside echsx(); the kill itself is kernel behaviour",
-  not_covered=["echsx(): parsed limit -> alarm() argument, DUE vs now", "signal delivery / process kill", "make_task DTEND branch wiring in evical.c"])
+  level_text="Killing a job is alarm()+SIGXCPU in the kernel and out of a contract's reach. Decided with contracts on the real code is every hop of the NUMBER that travels from the user file to the alarm: DTEND/DTSTART difference == elapsed time for any span (C08.diff), every ISO spelling of a DURATION reads as its value incl. weeks/days and signs (C18.idiff.strp.*), make_task hands a positive DURATION on as the timeout and otherwise the DUE time as the deadline (C14.make_task.vtodo), the daemon writes the limit as PT<n>S with n = limit rounded up to seconds (C14.vtodoify), and the executor arms alarm() with exactly that many seconds / with due - now before the job starts, kill handler installed, refuses an overdue DUE (now >= due) and never starts the job on a negative limit (C14.echsx); the handler sends SIGXCPU to the job (C14.timeo_cb).",
+  level_note="Trusted: libc %d / strtol (recorders capture format and argument), ghost recorder replacing fdprnt.h, fixed-arity stubs for alarm/time/sigaction/kill/setuid...; echsx's phases prep/run/mail/jlog/free_task by recording contracts. Not covered: the kill itself and its timing (kernel), the journal record of the termination, DTEND of a recurring VEVENT through make_task's stream branch.",
+  explanation="numeric chain of the limit is covered by discharged contracts hop by hop up to the alarm() argument; delivery of the signal and the journal text are kernel / libc behaviour",
+  not_covered=["signal delivery / process kill and its timing", "journal record of the termination (jlog_task)", "make_task's DTEND branch for recurring events (stream construction)"])
 O("C14.vtodoify", "C14", "h_C14.c", "h_C14_vtodoify",
   "vtodoify: for every limit 0..400 days the execution request carries one DURATION line, in the form PT<n>S, with n = the limit in ms rounded up to whole seconds",
   ["vtodoify"], solver=["minisat", "kissat", "z3"], timeout={"quick": 600, "thorough": 1800}, unwind=18, replay=False, replay_note="fdprnt.h replaced by recorder",
@@ -369,13 +369,13 @@ O("C14.vtodoify", "C14", "h_C14.c", "h_C14_vtodoify",
 
 # ------------------------------------------------------------------ C09 / C16 fillers
 P("C09", level="proof",
-  level_text="Function and loop contracts on the real sub-daily fillers of evrrul.c (iterators and calendar kernels by the contracts C19 / C01.k discharge; every loop has an in-place inductive loop contract incl. a lexicographic decreases clause): for every valid DTSTART, every well-formed BYxxx container state, INTERVAL up to 64; this obligation is in the thorough tier only (24 min); the quick tier keeps the termination and iteration obligations it shares with C07/C19 and the refill obligation - the carries divide INTERVAL-sized sums, wide operands are out of reach -, any COUNT/UNTIL: all array accesses and shifts are in bounds, the function returns at most what was asked for, every loop terminates (the cursor strictly advances and stops at the end of the supported range), results are real date-times.",
-  level_note="Trusted: CBMC semantics and DFCC loop-contract instrumentation; RR_WF (containers well-formed, INTERVAL >= 1) as established by the parser (not verified: snarf_rrule uses libc). Covered fillers are listed in the evidence; rrul_fill_yly/mly and their helpers, make_enum and refill/next_evrrul are not covered.",
-  not_covered=["rrul_fill_yly / rrul_fill_mly and the fill_yly_*/fill_mly_* helpers, clr_poss, shift", "make_enum time-of-day enumeration", "refill / next_evrrul cache indices", "snarf_rrule (libc strtol, gperf)"])
+  level_text="Function and loop contracts on the real code. Fillers of evrrul.c - rrul_fill_dly, _wly, _Hly, _Mly (quick) and _Sly (thorough only: 24 min) - with iterators and calendar kernels replaced by the contracts C19 / C01.k discharge and every loop under an in-place inductive loop contract incl. (lexicographic) decreases clauses: for every valid DTSTART, every well-formed BYxxx container state, INTERVAL up to 64, any COUNT/UNTIL all array accesses and shifts are in bounds (incl. the BYHOUR x BYMINUTE x BYSECOND enumeration into the 128-slot cache), at most what was asked for is returned, every loop terminates. make_enum (time-of-day arrays, C09.make_enum). The parser side of the assume/guarantee pair: snarf_rrule hands the fillers only well-formed containers with values inside the ranges the filler contracts assume, and an INTERVAL in 1..INT_MAX, whatever numbers the text holds (C09.snarf_rrule.<KEY>, 11 keys). Lookup/iteration termination: C07.find_trno, C19.collect_*.",
+  level_note="Trusted: CBMC semantics and DFCC loop-contract instrumentation; libc number reading (stubs return an arbitrary long). Bound: INTERVAL <= 64 in the filler obligations (the carries divide INTERVAL-sized sums; wide operands are out of reach). Not covered: rrul_fill_yly/mly and their helpers (fill_yly_*, fill_mly_*, clr_poss, shift), the Hijri scales inside the fillers, _ical_pull.",
+  not_covered=["rrul_fill_yly / rrul_fill_mly and the fill_yly_*/fill_mly_* helpers, clr_poss, shift", "fillers on a non-Gregorian SCALE", "INTERVAL above 64", "the line-level parser _ical_pull"])
 P("C16", level="proof",
-  level_text="Same obligations as C09 with the ordering post-conditions: the occurrences a covered filler writes are strictly increasing (ghost witness pair, inductive invariant over the append-only output), none before DTSTART, none after UNTIL, never more than COUNT or than asked for. Across refills the stream order rests on echs_instant_sort (C20) and refill's bookkeeping, which is not covered.",
-  level_note="Trusted as for C09. Not covered: refill's COUNT bookkeeping across the 64-occurrence boundary, time-zone correction and rescale inside refill, yearly/monthly fillers, SHIFT/BYEASTER/SCALE extensions.",
-  not_covered=["refill: COUNT bookkeeping, seed hold-back, UTC correction, sort", "yearly/monthly fillers and the SHIFT / BYEASTER / SCALE extensions"])
+  level_text="Same filler obligations as C09 with the post-conditions of this property: every occurrence a covered filler (dly, wly, Hly, Mly; Sly in the thorough tier) writes lies within [DTSTART, UNTIL], never more than COUNT or than asked for; Sly additionally strictly increasing (ghost witness pair, inductive invariant over the append-only output) and real date-times. refill: 63 delivered + seed held back, COUNT down by exactly the number delivered, every slot corrected by its zone-offset difference (C16.refill); the proto event of a rule is DTSTART in UTC (C16.make_evrrul). Across refills the order rests on echs_instant_sort (C20).",
+  level_note="Trusted as for C09. Not covered: strict order inside the dly/wly/Hly/Mly fillers (bounds only), yearly/monthly fillers, SHIFT/BYEASTER/SCALE extensions.",
+  not_covered=["strict order inside rrul_fill_dly/wly/Hly/Mly (only the bounds are proved)", "yearly/monthly fillers and the SHIFT / BYEASTER / SCALE extensions"])
 EF = dict(dfcc=True, loop_contracts=True, with_unwind=True,
           replace=["bi447_next", "bui31_next", "bi31_next", "bui63_next", "ymd_get_wday", "__get_ndom"],
           replace_status={"bi447_next": "discharged by C19.bi447_next", "bui31_next": "discharged by C19.bui31_next", "bi31_next": "discharged by C19.bi31_next",
@@ -388,8 +388,8 @@ O("C09.Sly", ["C09", "C16", "C01"], "h_C09.c", "h_C09_Sly",
 
 # ------------------------------------------------------------------ C05
 P("C05", level="other",
-  level_text="'Print then parse returns the same task' runs through libc formatting and parsing (vsnprintf, strtol, gperf tables), which CBMC has no semantics for, so the text round trip as such is out of reach. Decided with contracts on the real code, with the fd printer replaced by a ghost recorder: every BYMONTH/BYHOUR/BYMINUTE/BYSECOND list written by send_rrul enumerates exactly the set its own container holds (0 and 31..59 included, no value twice); the containers themselves behave as sets (C19); instants and durations round-trip as text (C18); the max-simul limit survives the daemon's own encode/decode (C12). Everything else of the property is listed as not covered.",
-  level_note="Trusted: ghost recorder replacing fdprnt.h (format pointer + integer argument), libc %u/%d. Bounded: at most 3 values per BYxxx list in C05.send_rrul.sets. Not covered: field mapping of _ical_proc / snarf_fld (calendar-level defaults, LOCATION/SHELL merge), remaining COUNT / next DTSTART of send_evrrul, RDATE/EXDATE lists, escaping, lines near 1 KiB, interned strings.",
+  level_text="'Print then parse returns the same task' runs through libc formatting and parsing (vsnprintf, strtol, gperf tables), which CBMC has no semantics for, so the text round trip as such is out of reach. Decided with contracts on the real code, with the fd printer replaced by a ghost recorder: every BYMONTH/BYHOUR/BYMINUTE/BYSECOND list written by send_rrul enumerates exactly the set its own container holds (0 and 31..59 included, no value twice); the containers themselves behave as sets (C19); instants and durations round-trip as text (C18); X-ECHS-MAX-SIMUL and X-ECHS-UMASK survive read -> make_task -> write with their 'upped by one' encoding, the event's own value winning over a calendar-level default (C12.max_simul.text, C05.umask.text). Everything else of the property is listed as not covered.",
+  level_note="Trusted: ghost recorder replacing fdprnt.h (format pointer + integer argument), libc %u/%d, strtol stub. Bounded: at most 3 values per BYxxx list in C05.send_rrul.sets. Not covered: field mapping of _ical_proc / snarf_fld (calendar-level defaults, LOCATION/SHELL merge), remaining COUNT / next DTSTART of send_evrrul, RDATE/EXDATE lists, escaping, lines near 1 KiB, interned strings.",
   explanation="text round trip is outside CBMC's reach (libc); the set-valued parts of a rule are proved to be written completely, other parts are not covered",
   not_covered=["END:VEVENT merge of calendar-level defaults (known weakness: LOCATION / X-ECHS-SHELL of an event without SETUID are lost)", "send_evrrul: remaining COUNT and next DTSTART per consumption prefix", "RDATE/EXDATE serialisation, BYSETPOS keyword, TZID spelling", "string fields, escaping, interning (intern.c)"])
 O("C05.send_rrul.sets", "C05", "h_C05.c", "h_C05_send_rrul_sets",
